@@ -274,6 +274,22 @@ def run_case(c):
     if not exp_ok and exc is None:
         raise Violation("authorize-succeeded-without-device-authorization",
                         "threshold %d, %d signatures, error_at %r" % (thr, nsigs, err_at))
+    # the same command again on a freshly locked device: same exchanges, same outcome
+    w.unlocked = False
+    w.mode = BOOT
+    seen.update({"first": None, "sigs": [], "count": 0})
+    exc2 = None
+    try:
+        with contextlib.redirect_stdout(io.StringIO()):
+            auths.do_authorize_signer(opts)
+    except Exception as e:   # noqa
+        exc2 = e
+    if (exc2 is None) != (exc is None) or seen["first"] != want_first or \
+            [x.hex() for x in seen["sigs"]] != good[:exp_sent]:
+        raise Violation("authorize-not-repeatable", "second run: exc %r, first APDU %r, %d "
+                        "signatures (first run: exc %r, %d)" % (
+                            exc2, seen["first"] and seen["first"].hex(), len(seen["sigs"]), exc,
+                            exp_sent))
     return Out(labels, len(good) >= 2 or n in (0, 65535))
 
 
